@@ -12,7 +12,7 @@ use serde::{Deserialize, Serialize};
 use serde_json::json;
 use std::str::FromStr;
 
-pub const RULE: &str = "enumerated: every secret length 0..=60 in five alphabets (ASCII, multi-byte UTF-8, NUL bytes, trailing CR LF, leading blank + trailing LF) x capacities M in {0,1,3,4,5,8,20,44,64,100} (construction succeeds iff len <= M-4, never for M<4, else KeyTooLongError; never panics), every calendar day of the years 1, 4, 999, 1000, 1900, 2000, 2024, 9999 (thorough) or their month ends and leap days (quick); generated: random secrets (<= 40 bytes), dates in years 1-9999, region/service strings incl. empty and non-ASCII. Oracle: as_ref() returns the secret put in; kDate/kRegion/kService/kSigning equal the model's own HMAC-SHA256 chain byte for byte; all ten shortcut paths agree with the step-by-step one. Non-trivial: secret length != 40, or non-ASCII secret, or year < 1000, or leap day, or empty/non-ASCII region or service; distinct by (secret, date, region, service).";
+pub const RULE: &str = "enumerated: every secret length 0..=60 in five alphabets (ASCII, multi-byte UTF-8, NUL bytes, trailing CR LF, leading blank + trailing LF) x capacities M in {0,1,3,4,5,8,20,44,64,100} (construction succeeds iff len <= M-4, never for M<4, else KeyTooLongError; never panics), every calendar day of the years 1, 4, 999, 1000, 1900, 2000, 2024, 9999 (thorough) or their month ends and leap days (quick); generated: random secrets (<= 40 bytes), dates in years 1-9999, region/service strings incl. empty and non-ASCII. Consecutive derivations on one thread: after a derivation, one whose region/service boundary has moved (with or without a slash), whose components are exchanged, or in which one of secret/date/region/service differs; and all of it again while a logger renders records down to TRACE level. Oracle: as_ref() returns the secret put in; kDate/kRegion/kService/kSigning equal the model's own HMAC-SHA256 chain byte for byte; all ten shortcut paths agree with the step-by-step one. Non-trivial: secret length != 40, or non-ASCII secret, or year < 1000, or leap day, or empty/non-ASCII region or service; distinct by (secret, date, region, service).";
 
 #[derive(Clone, Debug, Serialize, Deserialize)]
 pub struct Derive {
